@@ -1,6 +1,7 @@
 package props
 
 import (
+	"strconv"
 	"bytes"
 	"context"
 	"fmt"
@@ -18,7 +19,7 @@ func init() {
 	register(&Prop{ID: "C15", Run: runC15, Quick: 15000, Thorough: 150000, Level: "exploration"})
 }
 
-var c15Policies = []string{"in-order", "reversed", "shuffled", "duplicated", "one-withheld", "foreign-first", "delayed", "all-withheld"}
+var c15Policies = []string{"in-order", "reversed", "shuffled", "duplicated", "one-withheld", "foreign-first", "delayed", "all-withheld", "lookalike-only"}
 
 type pingCall struct {
 	name        string
@@ -34,6 +35,8 @@ type pongSent struct {
 	payload string
 	step    int
 }
+
+func (p pongSent) String() string { return fmt.Sprintf("%q@%d", p.payload, p.step) }
 
 func runC15(r *Run) {
 	t := r.Tape
@@ -229,6 +232,24 @@ func runC15(r *Run) {
 					r.S.Sleep(2 * time.Second)
 					sendPong(p)
 				case 7:
+				case 8:
+					// payloads that resemble the ping's without being it (other
+					// spellings of the same number, padded, truncated, extended):
+					// none of them may complete the ping
+					q := string(p)
+					for _, v := range []string{"0" + q, "+" + q, q + " ", " " + q, q + "\x00", "00000" + q, q + "0", q + ".0", "4294967296", "0x" + q} {
+						sendPong([]byte(v))
+					}
+					if len(q) > 0 {
+						sendPong([]byte(q[:len(q)-1]))
+						sendPong([]byte(q[1:]))
+					}
+					if n, err := strconv.Atoi(q); err == nil {
+						sendPong([]byte(strconv.Itoa(n + 1<<32)))
+						sendPong([]byte(strconv.Itoa(n - 1<<32)))
+						sendPong([]byte(fmt.Sprintf("%x", n+10)))
+					}
+					r.S.Count("probe.lookalike-pongs")
 				default:
 					sendPong(p)
 				}
